@@ -14,10 +14,6 @@ Proof.
   - destruct i as [|i]; cbn [set_nth firstn skipn app]; [reflexivity|]. rewrite IH. reflexivity.
 Qed.
 
-Lemma abso_engaged : forall s, has_value s = true -> abso s = Some (val s).
-Proof. intros s H. unfold abso. rewrite H. reflexivity. Qed.
-Lemma abso_disengaged : forall s, has_value s = false -> abso s = None.
-Proof. intros s H. unfold abso. rewrite H. reflexivity. Qed.
 
 (* the converting constructor: engaged iff the source is, and then bound to the contained object;
    operator* of the source is evaluated only inside its precondition *)
@@ -37,7 +33,7 @@ Theorem rstep_refines : forall T s o s1, wfr s -> sr_step (absr s) o = Some s1 -
   exists s', rstep T s o = Ok s' /\ absr s' = s1 /\ wfr s'.
 Proof.
   intros T [cs sr a b z] o s1 Hw. unfold wfr in Hw. cbn [src] in Hw. unfold absr. cbn [rput cells src pa pb pz].
-  destruct o as [t c|t|t| |t v|t|c v|t|t|c| |v|v| ];
+  destruct o as [t c|t|t| |t v|t|c v|t|t|t|t|c| |v|v| ];
     cbn [rstep sr_step rpick rput spick sput cells src pa pb pz fst snd]; intro H.
   - destruct t; inversion H; subst; rwrap.
   - destruct t; inversion H; subst; rwrap.
@@ -68,6 +64,8 @@ Proof.
     split; [reflexivity|exact Hw].
   - (* from optional<T0> const& *)
     rewrite ref_from_opt_ok. cbn [rbind]. destruct t; inversion H; subst; rwrap.
+  - rewrite ref_from_ref_ok. cbn [rbind]. destruct t; inversion H; subst; rwrap.
+  - rewrite ref_from_opt_ok. cbn [rbind]. destruct t; inversion H; subst; rwrap.
   - rewrite ref_from_ref_ok. cbn [rbind]. destruct t; inversion H; subst; rwrap.
   - inversion H; subst; rwrap.
   - inversion H; subst; rwrap.
